@@ -21,6 +21,7 @@ type combCase struct {
 	Mode      int // 0 plain, 1 -base, 2 -diff_base
 	Normalize bool
 	SelfMinus bool   // base = the sources themselves
+	Big       bool   // when no unit conversion is involved: one sample per profile carries values beyond 2^53
 	SI        string // sample_index for the -top clause
 }
 
@@ -78,6 +79,7 @@ func genCase(t *rapid.T) *combCase {
 		}
 		c.Normalize = rapid.IntRange(0, 3).Draw(t, "normalize") == 0
 	}
+	c.Big = rapid.IntRange(0, 3).Draw(t, "big") == 0
 	c.SI = rapid.SampledFrom([]string{"0", common[0], common[len(common)-1]}).Draw(t, "si") // explicit: the default index after dropping uncommon types is documented separately
 	return c
 }
@@ -165,6 +167,35 @@ func check(c *combCase, o *vk.Obs) []string {
 	bases := build(c.Bases)
 	if c.SelfMinus {
 		bases = build(c.Srcs)
+	}
+	big := false
+	if c.Big && !c.Normalize {
+		// counters beyond 2^53 (not representable in a float64): sums and differences are still exact integers
+		same := true
+		unit := map[string]string{}
+		for _, p := range append(append([]*profile.Profile{}, srcs...), bases...) {
+			for _, st := range p.SampleType {
+				if u, ok := unit[st.Type]; ok && u != st.Unit {
+					same = false
+				}
+				unit[st.Type] = st.Unit
+			}
+		}
+		if same {
+			o.Label("values-beyond-2^53")
+			big = true
+			for _, p := range append(append([]*profile.Profile{}, srcs...), bases...) {
+				if len(p.Sample) > 0 {
+					for j, v := range p.Sample[0].Value {
+						if v >= 0 {
+							p.Sample[0].Value[j] = v + 1<<53 + 1
+						} else {
+							p.Sample[0].Value[j] = v - 1<<53 - 1
+						}
+					}
+				}
+			}
+		}
 	}
 	o.Label([]string{"plain", "base", "diff_base"}[c.Mode])
 	o.LabelIf(c.Normalize, "normalize")
@@ -366,7 +397,9 @@ func check(c *combCase, o *vk.Obs) []string {
 		if r2.Panic != "" {
 			return append(e, "pprof -top panicked: "+r2.Panic)
 		}
-		if r2.Err == nil && unit != "" {
+		// printed numbers go through a float64 (display rounding is C15's subject): with values beyond 2^53 the
+		// exact comparison is the one on the -proto output above, the printed report is only required to exist
+		if r2.Err == nil && unit != "" && !big {
 			lg, rows, perr := model.ParseTop(r2.Out("out"))
 			if perr != nil {
 				e.Addf("cannot parse -top: %v", perr)
@@ -411,7 +444,17 @@ func check(c *combCase, o *vk.Obs) []string {
 					gotRows = append(gotRows, r.Row)
 				}
 				model.SortRows(gotRows)
-				if fmt.Sprint(want) != fmt.Sprint(gotRows) {
+				same := fmt.Sprint(want) == fmt.Sprint(gotRows)
+				if !same && big && len(want) == len(gotRows) {
+					// a printed number goes through a float64: beyond 2^53 it reads back within one part in 2^52
+					// (display rounding, C15); the exact comparison is the one on the -proto output above
+					same = true
+					near := func(a, b int64) bool { return math.Abs(float64(a)-float64(b)) <= math.Abs(float64(a))/(1<<51)+1 }
+					for i := range want {
+						same = same && want[i].Name == gotRows[i].Name && near(want[i].Flat, gotRows[i].Flat) && near(want[i].Cum, gotRows[i].Cum)
+					}
+				}
+				if !same {
 					e.Addf("-top of the combination (mode %d, sample_index %q) is not the entry-wise sum of the individual reports:\n   want %v\n   got  %v", c.Mode, c.SI, want, gotRows)
 				}
 				// with -diff_base percentages are relative to the base total; with plain sources the total is the sum of totals
